@@ -82,6 +82,17 @@ func genC17a(t *rapid.T) c17aScenario {
 		}
 		c.Servers = append(c.Servers, s)
 	}
+	// a quarter of the cases carry one dangling reference at a random position: if
+	// validation lets it through, applying it must expose the failing lookup
+	switch rapid.IntRange(0, 11).Draw(t, "dangling") {
+	case 0:
+		c.Locations[rapid.IntRange(0, len(c.Locations)-1).Draw(t, "dLoc")].Upstream = "nowhere"
+	case 1:
+		c.Servers[rapid.IntRange(0, len(c.Servers)-1).Draw(t, "dSrv")].Cache = "nowhere"
+	case 2:
+		s := &c.Servers[rapid.IntRange(0, len(c.Servers)-1).Draw(t, "dSrv2")]
+		s.Locations = append(s.Locations, "nowhere")
+	}
 	return c17aScenario{Cfg: c}
 }
 
